@@ -1,6 +1,7 @@
 CONSTANTS
   Ext <- AllExtensions
   Conv = "bundled"
+  Syntax <- SyntaxAsExt
   Defects = FALSE
   Mode = "bfs"
   Kernel = "cw"
